@@ -238,3 +238,18 @@ Definition re_es_agree (c : rcase (eop fval)) : bool :=
 Definition re_es_oracle (c : rcase (eop fval)) : bool :=
   let '(steps, p) := c in negb p && disp_ok steps (edigits (espec_outs fval same_fval (hist steps))).
 Definition re_es_class (c : rcase (eop fval)) : bool := let '(steps, _) := c in es_class (hist steps).
+
+(** *** Linearizability certificates.  All theorems about concurrency (C18_once_at_most_once, ...)
+    assume that each registry method is ONE atomic step of the model.  The harness runs several
+    goroutines against one registry, stamps every call at invocation and at response with a global
+    clock, and the check searches an order of the calls (a) that respects real time - a call that
+    had returned before another was invoked comes first - and (b) under which the atomic model
+    returns what every occurrence observed.  The order found is verified here: (a) by
+    [lin_order_ok] on the (invocation, response) stamps listed in that order, (b) by the ordinary
+    [*_agree] / [*_oracle] functions on the calls listed in that order. *)
+Fixpoint lin_order_ok (stamps : list (N * N)) : bool :=
+  match stamps with
+  | [] => true
+  | (inv, _) :: rest =>
+      forallb (fun later => negb (N.ltb (snd later) inv)) rest && lin_order_ok rest
+  end.
